@@ -19,26 +19,26 @@ CLAIMED = {
          "Three dispatch tables, 16 tag parsers, list parsers and content parsers compared with reference grammars; GREASE predicate tabulated over all 65536 types; variant->type mapping evaluated abstractly for every variant.", "4 C05"),
  "C06": ("region/remainder dataflow on extracted grammars; type and signature rules; MIR copy-call inventory", "other",
          "Structural necessary-and-sufficient shape for locality (every nested parser runs on its region; nothing extent-sensitive outside a region; remainder is the last element's) plus type-level zero-copy facts discharged by rustc's borrow checker under forbid(unsafe_code).", "4 C06"),
- "C07": ("exhaustive path-summary enumeration of the loop-free defragmenter methods vs a reference protocol", "other",
-         "All entry->exit paths of the four methods (parser outcome split into six classes) are abstracted to (guards, ordered effects on self, exit class) and compared as a set with the reference protocol: type check, saturating size check with >= 10 MiB before any append, clear-before-fill, append-then-reparse-whole-buffer, type cleared only on success, nocopy refusal without effects, reset = derived Default; private state and who-may-touch-state are checked too.", "4 C07"),
+ "C07": ("abstract interpretation with path forking of the loop-free defragmenter methods over a symbolic state and record; semantic path summaries vs a reference protocol", "other",
+         "The four methods are evaluated by an abstract interpreter (helpers, the delegation to parse_record_nocopy, map_err functions and Default inlined) over a symbolic state (type T0, buffer B0) and record (type RT, data D), the one-shot parser's outcome split into six classes. Decisions are named by meaning (in_progress, type in {..}, type_mismatch, too_large[>=,10 MiB] for saturating or checked sums), and each path is summarised as (decisions, parser invocations with the buffer and pseudo header seen, final type, final buffer parts, exit class); the set of summaries must equal spec/defrag.py. Also: MAX constant, private state, Default evaluates to the fresh parser, no other exported function touches the state, fragment signalling of the one-shot parser.", "4 C07"),
  "C08": ("exhaustive decision-table extraction by abstract evaluation", "other",
          "All 1150 cells (25 states x 23 message kinds x 2 directions) are evaluated abstractly from the HIR with arbitrary payloads and compared with a reference relation; content independence is decided by the evaluator refusing any other inspection of the message.", "4 C08"),
  "C09": ("generator-IR extraction from cookie-factory trees vs reference writers; tag agreement with the parser's dispatch tables; length pairing", "other",
          "Writer/reader agreement as a structural fact: emitted layout of the 11 serializers equals reference writers, every emitted type constant is the one the parser dispatches on (tables extracted from the same build), every direct length field prefixes exactly what follows, unsupported variants end in NotYetImplemented.", "4 C09"),
  "C10": ("parser-grammar extraction vs RFC 6347 grammar", "other",
          "DTLS record header (16/48-bit split), cap, handshake header, fragment predicate, bodies and datagram repetition compared with the reference grammar.", "4 C10"),
- "C11": ("dataflow on extracted grammars: code-point binder unconstrained; open field types", "other",
-         "For each enumerated code-point field the wire integer reaching it must be a bare full-width primitive that no guard/verify/dispatch mentions, and the field type must be an open newtype.", "4 C11"),
+ "C11": ("dataflow on extracted grammars: every value reaching a code-point field is a bare wire integer, mentioned in no condition and overlapping no structure-deciding read; open field types", "other",
+         "For 39 code-point fields and 2 raw lists: every branch/alternative/wrapper of the extracted grammar is followed to the values that can reach the field; each must be a bare integer of full width at the same wire position as in the reference grammar, mentioned in no guard/verify/dispatch, and its bytes must not also be read by a structure-deciding element (earlier alt alternative, re-read after a rewind; static byte ranges through fixed-width elements); list elements are the plain values; field types are open newtypes; extension dispatchers keep unknown types and dispatch only IANA-known ones.", "4 C11"),
  "C13": ("parser-grammar extraction (derive output included) vs RFC 4492/5246 structures", "other",
          "DH/EC/ECDH/signature grammars compared with reference grammars; self-delimitation and the signature flag pairing checked structurally.", "4 C13"),
  "C14": ("parser-grammar extraction vs RFC 6962 structure; length-prefix nesting", "other",
          "SCT list / entry / content grammars compared with the reference; nesting of the three length prefixes checked explicitly.", "4 C14"),
- "C12": ("generated-table extraction from HIR vs source txt and snapshot; lookup shape; abstract evaluation of derived sizes", "other",
-         "The phf map literal generated by build.rs is read as source and compared row by row (352 rows x 10 columns) with the txt under an independent token table and with a committed snapshot of today's assignments; the lookup routes are checked by shape; derived-size functions are evaluated abstractly over whole domains; name tokens are cross-checked with the columns.", "4 C12"),
- "C15": ("shape/dataflow rules on accessor and constructor bodies", "other",
-         "Accessor identity for both ClientHello impls, prefix/suffix rules for rand_time/rand_bytes, order-preserving registry-lookup maps and the constructor field tables are read from the HIR; every rule is a necessary and sufficient shape for the stated behaviour of these one-expression bodies.", "4 C15"),
- "C17": ("constant-table comparison with an IANA reference; abstract evaluation over whole 16-bit domains", "other",
-         "206 registry constants (rustc const-eval) compared with a hand-written IANA table; Display name tables read from the expanded macros; conversions, SignatureScheme helpers and key_bits evaluated abstractly for all 65536 values.", "4 C17"),
+ "C12": ("generated-table extraction from HIR vs source txt and snapshot; canonical symbolic form of the lookup bodies; abstract evaluation of derived sizes", "other",
+         "All 352 entries of the generated phf map literal are read from the HIR and compared with the rows of the txt file under the checker's own token table and with the IANA snapshot; the six lookup bodies are evaluated symbolically (helpers and delegations inlined) to the canonical forms CIPHERS.get(&id) / values().find(|c| c.name == name) (+ ok_or); enc_key_size over all 65536 sizes, mac_length/enc_block_size per variant; name tokens vs columns.", "4 C12"),
+ "C15": ("abstract evaluation of rand_time/rand_bytes over symbolic randoms of each length; canonical symbolic form of accessors, lookups and constructors; registry vs snapshot", "other",
+         "rand_time and rand_bytes are evaluated by the checker's abstract evaluator on a symbolic random (opaque bytes r0..rn-1) of each length in {0..5,8,28,31,32,33,64}: big-endian combination of r0..r3 / r[4..] when len >= 4, else 0 / empty, whatever slice API the body uses; the 12 accessors return their field; cipher_suites/get_ciphers map each id in order through the registry lookup; constructors store their arguments; the registry consulted equals the txt and the snapshot.", "4 C15"),
+ "C17": ("constant-table comparison with an IANA reference; abstract evaluation of Display tables, conversions, SignatureScheme helpers and key_bits over whole domains", "other",
+         "Every registry constant evaluates (rustc const-eval) to its IANA value; no two constants of a type share a value; each Display body (match, if-chain or helper) is evaluated for every constant value and its neighbours (all 256 values for u8 types): constants print their own name, other values reach the numeric fallback; Debug delegates; From/Deref/AsRef/from_u16/to_be_bytes are the identity (abstract evaluation); is_reserved/hash_alg/sign_alg and key_bits over all 65536 values.", "4 C17"),
  "C18": ("build matrix through the fact extractor; rustc-discharged lint/trait obligations; cross-configuration identity of extracted code", "other",
          "Three configurations must compile and the fourth must be refused by the crate's own compile_error!; forbid(unsafe_code), the unsafe inventory and Send/Sync verdicts come from rustc; every function and type outside the serializer must extract to identical facts in all buildable configurations (static substitute for result equality).", "4 C18"),
  "C16": ("combinator shape check; Failure-freedom of the element grammar", "other",
